@@ -101,8 +101,9 @@ func FindValuePackage(n ssa.Value) fn.Optional[string] {
 			// the package of a method is the package of its receiver
 			pkg = node.Params[0].Parent().Package()
 		}
-		if pkg != nil {
-			return fn.Some(pkg.String())
+		if pkg != nil && pkg.Pkg != nil {
+			// the package path, as in FindSafeCalleePkg (pkg.String() is "package <path>")
+			return fn.Some(pkg.Pkg.Path())
 		}
 		return fn.None[string]()
 	}
